@@ -9,6 +9,8 @@ import (
 	"sort"
 	"strings"
 	"syscall"
+
+	"golang.org/x/sys/unix"
 )
 
 // Layout of the chroot tree (paths relative to the chroot root).
@@ -29,6 +31,34 @@ type obj struct {
 	Rdev   uint64
 	Target string // symlinks
 	Sum    string // regular files: sha256 of the first MiB
+	Xattrs string // "key=hexvalue;" sorted by key, read with llistxattr/lgetxattr (never through a link)
+}
+
+// lxattrs lists the extended attributes of p itself (a symlink is not followed). As root
+// this includes trusted.* and security.*.
+func lxattrs(p string) string {
+	buf := make([]byte, 2048)
+	n, err := unix.Llistxattr(p, buf)
+	if err == unix.ERANGE {
+		buf = make([]byte, 1<<16)
+		n, err = unix.Llistxattr(p, buf)
+	}
+	if err != nil || n <= 0 {
+		return ""
+	}
+	keys := strings.Split(strings.TrimSuffix(string(buf[:n]), "\x00"), "\x00")
+	sort.Strings(keys)
+	var sb strings.Builder
+	val := make([]byte, 4096)
+	for _, k := range keys {
+		m, err := unix.Lgetxattr(p, k, val)
+		if err != nil {
+			sb.WriteString(k + "=?" + err.Error() + ";")
+			continue
+		}
+		sb.WriteString(k + "=" + hex.EncodeToString(val[:m]) + ";")
+	}
+	return sb.String()
 }
 
 type snap map[string]obj
@@ -38,7 +68,7 @@ func lstatObj(p string) (obj, error) {
 	if err := syscall.Lstat(p, &st); err != nil {
 		return obj{}, err
 	}
-	o := obj{Mode: st.Mode, UID: st.Uid, GID: st.Gid, Size: st.Size, Mtime: st.Mtim.Sec*1e9 + st.Mtim.Nsec}
+	o := obj{Mode: st.Mode, UID: st.Uid, GID: st.Gid, Size: st.Size, Mtime: st.Mtim.Sec*1e9 + st.Mtim.Nsec, Xattrs: lxattrs(p)}
 	switch st.Mode & syscall.S_IFMT {
 	case syscall.S_IFLNK:
 		o.Target, _ = os.Readlink(p)
@@ -108,10 +138,11 @@ const (
 	effContent  = "content-changed-outside"
 	effTarget   = "link-target-changed-outside"
 	effMeta     = "metadata-changed-outside" // mode, owner, mtime
+	effXattr    = "xattr-changed-outside"    // only the extended attributes differ
 	effDest     = "dest-replaced"            // the destination itself is no longer the directory it was
 )
 
-var allEffects = []string{effCreated, effDeleted, effReplaced, effContent, effTarget, effMeta, effDest}
+var allEffects = []string{effCreated, effDeleted, effReplaced, effContent, effTarget, effMeta, effXattr, effDest}
 
 type change struct {
 	Path   string `json:"path"`
@@ -228,6 +259,10 @@ func diffSnaps(a, b snap) []change {
 			set(effMeta)
 			det = append(det, fmt.Sprintf("owner %d:%d -> %d:%d", x.UID, x.GID, y.UID, y.GID))
 		}
+		if x.Xattrs != y.Xattrs {
+			det = append(det, fmt.Sprintf("xattrs %q -> %q", x.Xattrs, y.Xattrs))
+			set(effXattr)
+		}
 		if x.Mtime != y.Mtime {
 			d := fmt.Sprintf("mtime %d -> %d", x.Mtime, y.Mtime)
 			if eff == "" && x.Mode&syscall.S_IFMT == syscall.S_IFDIR {
@@ -237,7 +272,7 @@ func diffSnaps(a, b snap) []change {
 			set(effMeta)
 			det = append(det, d)
 		}
-		if eff != effMeta {
+		if eff != effMeta && eff != effXattr {
 			// unlink + re-create under the same name also touches the parent's mtime
 			childSetChanged[parentOf(p)] = true
 		}
